@@ -54,8 +54,15 @@ class Recorder:
         for v, c in expr.items():
             if v.name == '__dummy':
                 continue
-            out.append([self.intval(c), list(self.role_of(v, roles))])
+            out.append([self.coef(c), list(self.role_of(v, roles))])
         return out
+
+    def coef(self, x):
+        """a coefficient of the problem as posed (not a value that came back from the back end): the model's are all
+        integers, a fractional one never matches it"""
+        if x is None or abs(x - round(x)) > 1e-9:
+            return -999999
+        return int(round(x))
 
     def intval(self, x):
         if x is None:
